@@ -764,6 +764,10 @@ func (c *Ctx) c12Wiring(b BK) {
 			case *ast.SelectorExpr:
 				if s := c.Pkg.TypesInfo.Selections[rhs]; s != nil && s.Kind() == types.MethodVal && (namedTypeName(s.Recv()) == b.Name || namedTypeName(s.Recv()) == b.Wrapper) {
 					got[sel.Sel.Name] = rhs.Sel.Name
+					if mf, ok := s.Obj().(*types.Func); ok {
+						full := pw.FuncName(mf) // canonical
+						got[sel.Sel.Name] = full[strings.LastIndex(full, ".")+1:]
+					}
 				}
 			case *ast.Ident:
 				got[sel.Sel.Name] = rhs.Name
